@@ -10,6 +10,7 @@ Stated on the storage-level model (`Model/SparseStore.lean`, the transcription o
 for every hash function `H` and every node store satisfying the finite-map laws (`StoreLaws`).
 -/
 import FuelVerif.Lemmas.SparseStore
+import FuelVerif.Lemmas.SparseRefine
 namespace FuelVerif.SmtStore
 open FuelVerif FuelVerif.Gen.Sparse
 
@@ -95,5 +96,14 @@ def PersistStatement : Prop :=
   ∀ (hl : StoreLaws S) (st : σ) (ops : List (Bool × Bytes × Bytes)),
     RootPersisted H S (ops.foldl (fun t op =>
       if op.1 then (insert H S t op.2.1 op.2.2).1 else (delete H S t op.2.1).1) (SMT.new st))
+
+/-- **every state that represents a structural tree is persisted**: if the in-memory root is the node of
+a canonical tree `t` and all nodes of `t` are in the store (`SmtRefine.Rep`, garbage allowed), then
+reloading from the store at the current root returns the identical state. (`Rep` is established by
+`new`; its preservation by `insert`/`delete` is the refinement that is checked by the streams and only
+partly proved — `SmtRefine.mergeSides_replace` is the proved core of the path rebuild.) -/
+theorem rep_reload (hok : FuelVerif.SmtBytes.HashOK H) (s : SMT σ) (t : FuelVerif.SmtRefine.T)
+    (hr : FuelVerif.SmtRefine.Rep H hok S s t) : load H S s.storage s.rootHash = .ok s :=
+  load_roundtrip H S s (FuelVerif.SmtRefine.rep_rootPersisted H hok S hr)
 
 end FuelVerif.SmtStore
